@@ -350,6 +350,10 @@ class Evaluator:
             if v.k == "ptr":
                 return v
             raise EvalError("bitcast of non-pointer")
+        if ck == "PointerToIntegral":
+            return Val(self.fresh("ptrbits"), "int")
+        if ck == "IntegralToPointer":
+            return Val(IV(0), "ptr", "<opaque>")
         if ck == "py":
             if ty == "py":     # int(x)
                 if v.k == "flt":
@@ -403,6 +407,9 @@ class Evaluator:
 
     def ev_ld(self, e, st):
         arr, idx = self._index(e, st)
+        if arr not in st.arrs and "@g" in arr:
+            self.oblige("S.dangling", z3.BoolVal(False), st, "read through a pointer into buffer %s after it was reallocated" % arr.split("@")[0])
+            return self.val_of_elem(self.fresh("dangling"), self.elem.get(arr, "i64"))
         if arr not in st.arrs:
             raise EvalError("load from unknown array %s" % arr)
         self.bounds(arr, idx, st, "read")
@@ -417,6 +424,9 @@ class Evaluator:
         return self.val_of_elem(t, ety)
 
     def store(self, arr, idx, v, st, src_ty=None):
+        if arr not in st.arrs and "@g" in arr:
+            self.oblige("S.dangling", z3.BoolVal(False), st, "write through a pointer into buffer %s after it was reallocated" % arr.split("@")[0])
+            return
         if arr not in st.arrs:
             raise EvalError("store to unknown array %s" % arr)
         self.bounds(arr, idx, st, "write")
